@@ -106,7 +106,7 @@ Proof.
   destruct (key_limit <? blen k) eqn:E5; [intros H; inversion H; reflexivity|].
   destruct (expected_digest integrity h) as [e1|expected] eqn:E6; [intros H; inversion H; reflexivity|].
   destruct (read_all_declared md5 expected r size) as [e2|body] eqn:E7; [intros H; inversion H; reflexivity|].
-  destruct (put_object s b k body tracked) as [s2 [[e3|] vid]] eqn:E8.
+  destruct (put_object s b k body (carry_meta s b k tracked)) as [s2 [[e3|] vid]] eqn:E8.
   - intros H. inversion H. subst s2. eapply put_object_err_state. exact E8.
   - intros H. inversion H.
 Qed.
@@ -143,7 +143,7 @@ Lemma put_request_wellformed md5 c integrity ml s b k h r tracked size expected 
     match read_all_declared md5 expected r size with
     | inl e => (s, inl e)
     | inr body =>
-        match put_object s b k body tracked with
+        match put_object s b k body (carry_meta s b k tracked) with
         | (s2, (None, vid)) => (s2, inr (body, vid))
         | (s2, (Some _, _)) => (s2, inl PNoSuchBucket)
         end
@@ -175,14 +175,16 @@ Theorem put_accept_iff md5 c ml s b k h data tracked size d bk :
   let res := put_request md5 c true ml s b k h {| br_data := data; br_fail_after := None |} tracked in
   ((exists body vid, snd res = inr (body, vid)) <-> (d = md5 data /\ size = blen data)) /\
   (forall body vid, snd res = inr (body, vid) ->
-     body = data /\ exists v sv, get_object (fst res) b k = OObj v sv /\ vd_body v = data /\ vd_meta v = tracked).
+     body = data /\ exists v sv, get_object (fst res) b k = OObj v sv /\ vd_body v = data /\
+                               vd_meta v = carry_meta s b k tracked /\
+                               (forall kv, In kv tracked -> In kv (vd_meta v))).
 Proof.
   intros Hb Hml Hcl Hsize Hk Hexp res.
   assert (Hres : res =
     match read_all_declared md5 (Some d) {| br_data := data; br_fail_after := None |} size with
     | inl e => (s, inl e)
     | inr body =>
-        match put_object s b k body tracked with
+        match put_object s b k body (carry_meta s b k tracked) with
         | (s2, (None, vid)) => (s2, inr (body, vid))
         | (s2, (Some _, _)) => (s2, inl PNoSuchBucket)
         end
@@ -198,16 +200,17 @@ Proof.
       * intros [Hd Hs]. rewrite (read_all_declared_accept md5 d data size Hd Hs) in ER. discriminate ER.
     + intros body vid H. discriminate H.
   - apply read_all_declared_inr in ER. destruct ER as [Hd [Hs Hbody]]. subst body0.
-    pose proof (put_object_ok s b k data tracked bk Hb) as Hok.
-    destruct (put_object s b k data tracked) as [s2 [[e3|] vid0]] eqn:EP.
+    pose proof (put_object_ok s b k data (carry_meta s b k tracked) bk Hb) as Hok.
+    destruct (put_object s b k data (carry_meta s b k tracked)) as [s2 [[e3|] vid0]] eqn:EP.
     + cbn [fst snd] in Hok. discriminate Hok.
     + cbn [fst snd]. split.
       * split.
         -- intros _. split; assumption.
         -- intros _. exists data, vid0. reflexivity.
       * intros body vid H. inversion H. subst body vid. split; [reflexivity|].
-        destruct (get_after_put s b k data tracked s2 vid0 EP) as [v [sv [Hg [Hvb [Hvm _]]]]].
-        exists v, sv. split; [exact Hg|]. split; assumption.
+        destruct (get_after_put s b k data (carry_meta s b k tracked) s2 vid0 EP) as [v [sv [Hg [Hvb [Hvm _]]]]].
+        exists v, sv. split; [exact Hg|]. split; [exact Hvb|]. split; [exact Hvm|].
+        intros kv Hin. rewrite Hvm. apply carry_meta_keeps. exact Hin.
 Qed.
 
 (* ---- (d) ----------------------------------------------------------------- *)
